@@ -2592,7 +2592,7 @@ impl<'de, 'e> de::Deserializer<'de> for YamlDeserializer<'de, 'e> {
             Unit(String, Location),
             Map(String, Location),
             /// Tag selects the variant, scalar value is the newtype payload.
-            TaggedNewtype(String, Location, Vec<Ev<'a>>),
+            TaggedNewtype(String, Location, Vec<Ev<'a>>, Option<Location>),
         }
 
         let mut tagged_enum = None;
@@ -2618,7 +2618,11 @@ impl<'de, 'e> de::Deserializer<'de> for YamlDeserializer<'de, 'e> {
                 if let Some((ref tag_name, tag_loc)) = tagged_enum {
                     if _variants.contains(&tag_name.as_str()) {
                         let variant_name = tag_name.clone();
-                        // Consume the scalar and re-emit it without the tag for payload deserialization
+                        // Consume the scalar and re-emit it without the tag for payload deserialization.
+                        // When the tagged node is reached through an alias, the replayed payload keeps
+                        // the alias token as its use site (as any other aliased node does).
+                        let node_location = *location;
+                        let use_site = Some(self.ev.reference_location()).filter(|r| *r != node_location);
                         let ev = self.ev.next()?.unwrap();
                         let replay = match ev {
                             Ev::Scalar {
@@ -2640,7 +2644,7 @@ impl<'de, 'e> de::Deserializer<'de> for YamlDeserializer<'de, 'e> {
                             other => vec![other],
                         };
                         tagged_enum = None; // prevent mismatch check
-                        Mode::TaggedNewtype(variant_name, tag_loc, replay)
+                        Mode::TaggedNewtype(variant_name, tag_loc, replay, use_site)
                     } else {
                         let (value, _tag, loc) = self.take_scalar_event()?;
                         Mode::Unit(value, loc)
@@ -2686,6 +2690,8 @@ impl<'de, 'e> de::Deserializer<'de> for YamlDeserializer<'de, 'e> {
                     && _variants.contains(&tag_name.as_str())
                 {
                     // Consume the SeqStart, collect all events until SeqEnd, replay as untagged sequence
+                    let node_location = *location;
+                        let use_site = Some(self.ev.reference_location()).filter(|r| *r != node_location);
                     let seq_start = self.ev.next()?.unwrap();
                     let start_loc = seq_start.location();
                     let mut replay_events: Vec<Ev<'de>> = Vec::new();
@@ -2726,7 +2732,10 @@ impl<'de, 'e> de::Deserializer<'de> for YamlDeserializer<'de, 'e> {
                             None => return Err(Error::eof().with_location(self.ev.last_location())),
                         }
                     }
-                    let replay = Box::new(ReplayEvents::new(replay_events));
+                    let replay = Box::new(match use_site {
+                        Some(r) => ReplayEvents::with_reference(replay_events, r),
+                        None => ReplayEvents::new(replay_events),
+                    });
                     return visitor.visit_enum(TaggedEA {
                         replay,
                         cfg: self.cfg,
@@ -3021,8 +3030,11 @@ impl<'de, 'e> de::Deserializer<'de> for YamlDeserializer<'de, 'e> {
                 map_mode: true,
                 variant_location,
             },
-            Mode::TaggedNewtype(variant, variant_location, replay_buf) => {
-                let replay = Box::new(ReplayEvents::new(replay_buf));
+            Mode::TaggedNewtype(variant, variant_location, replay_buf, use_site) => {
+                let replay = Box::new(match use_site {
+                    Some(r) => ReplayEvents::with_reference(replay_buf, r),
+                    None => ReplayEvents::new(replay_buf),
+                });
                 // We need to use a replay source for the payload
                 return visitor.visit_enum(TaggedEA {
                     replay,
